@@ -52,7 +52,7 @@ Holds(cl, t) ==
     [] cl = "C09.additive" -> FlatS(its, 1) = tr.target
     [] cl = "C10.enclosure" ->
          LET pp == PlainPos(tr) IN
-         (ForcedAlignP(tr, pp) /\ (tr.mode = "unchecked" \/ ~HasTag(tr))) =>
+         (~tr.oversize /\ ForcedAlignP(tr, pp) /\ (tr.mode = "unchecked" \/ ~HasTag(tr))) =>
            \A kk \in DOMAIN tr.anns : Judged(tr, kk) =>
              LET a  == pp[tr.anns[kk][1] + 1]
                  b  == pp[tr.anns[kk][2]] + 1
@@ -62,11 +62,11 @@ Holds(cl, t) ==
                    /\ its[x+1].k = "s" /\ its[x+1].t = SubSeq(tr.target, a + 1, b)
                    /\ its[x+2].k = "A"
                    /\ LenBeforeItem(its, x) = a
-    [] cl = "C10.order" -> \A x, y \in DOMAIN its :
+    [] cl = "C10.order" -> tr.oversize \/ \A x, y \in DOMAIN its :
                               (x < y /\ its[x].k = "B" /\ its[y].k = "B") => its[x].id <= its[y].id
     [] cl = "C11.wellformed"  -> (C11Domain(tr) /\ tr.mode \in {"skip", "wrap"}) => tr.wf
     [] cl = "C11.textcontent" -> (C11Domain(tr) /\ tr.mode \in {"skip", "wrap"} /\ tr.wf) => tr.tc = tr.plain
-    [] cl = "C11.wrapall" -> (C11Domain(tr) /\ tr.mode = "wrap") =>
+    [] cl = "C11.wrapall" -> (~tr.oversize /\ C11Domain(tr) /\ tr.mode = "wrap") =>
                                 \A kk \in DOMAIN tr.anns : Judged(tr, kk) => PosOfB(its, kk) # {}
     [] OTHER -> FALSE
 
@@ -110,7 +110,7 @@ Exercised(cl, t) ==
     [] OTHER -> FALSE
 Judge == (tid # 0 /\ pc = "loop" /\ k = 1) => (/\ \A cl \in Clauses : Holds(cl, tid) \/ PrintT(<<"FAIL", tid, cl>>)
    /\ PrintT(<<"HIT", tid, Mask([ci \in DOMAIN ClauseSeq |-> Exercised(ClauseSeq[ci], tid)])>>))
-Conform == (tid # 0 /\ pc = "done" /\ T(tid).src # <<>> /\ T(tid).raised = "") =>
+Conform == (tid # 0 /\ pc = "done" /\ T(tid).src # <<>> /\ T(tid).raised = "" /\ ~T(tid).oversize) =>
               (Merge(out, 1) = ObsItems(tid) \/ PrintT(<<"DRIFT", tid>>))
 Done == (tid # 0 /\ (pc = "done" \/ err # "none")) => PrintT(<<"DONE", tid>>)
 =============================================================================
